@@ -304,6 +304,39 @@ func c09EvictionAtomic(c *Ctx, allow *ssa.Function) {
 		c.Pass(rule, "ratelimiter.TokenBucketRateLimiter.buckets", "-", "buckets are never removed or replaced")
 		return
 	}
+	// the sweep only looks: it changes neither the balance nor the refill anchor of a bucket it keeps.
+	// Crediting the refill from the sweep (tokens += n; lastRefill = now) throws away the fraction of a
+	// period the client had accrued, so after k idle periods it is admitted fewer than min(k, max) times
+	for _, fn := range p.Funcs {
+		pk := fnPkg(fn)
+		if pk == nil || !strings.HasSuffix(pk.Pkg.Path(), "/ratelimiter") || len(bucketRemovalSites(fn)) == 0 {
+			continue
+		}
+		bad := ""
+		seenFn := map[*ssa.Function]bool{}
+		var scan func(f *ssa.Function, depth int)
+		scan = func(f *ssa.Function, depth int) {
+			if f == nil || seenFn[f] || depth > 3 || f.Blocks == nil {
+				return
+			}
+			seenFn[f] = true
+			instrsOf(f, func(in ssa.Instruction) {
+				if k, st := storeKey(in); k == bk+"tokens" || k == bk+"lastRefill" {
+					if bad == "" {
+						bad = p.InstrPos(st) + ": " + p.FuncKey(f) + " stores " + k
+					}
+				}
+				if ci, ok := in.(ssa.CallInstruction); ok {
+					if g := StaticFn(ci); g != nil && p.IsHelios(g) && fnPkg(g) == pk {
+						scan(g, depth+1)
+					}
+				}
+			})
+		}
+		scan(fn, 0)
+		c.Check(bad == "", "sweep-is-read-only", p.FuncKey(fn), p.Pos(fn.Pos()), "the sweep reads balances and refill anchors and writes neither",
+			bad+" from the sweep: advancing a kept bucket's refill anchor outside Allow discards the part of a refill period its client had already waited — after k idle periods the client is admitted fewer than min(k, max_tokens) times")
+	}
 	if len(marks) == 0 {
 		return // already reported at the removal sites
 	}
